@@ -254,27 +254,52 @@ func buildScriptWorld(rc *RunCtx, i int) (*scriptWorld, error) {
 	spec.QueryConc = core.Pick(r, []int{1, 1, 2, 3, 8})
 	spec.Compression = core.Pick(r, []string{"none", "snappy", "zstd"})
 	spec.ZstdLevel = 1
+	bigBlocks := i%2 == 1
+	if bigBlocks {
+		// few large blocks: a block delivers several full batches before its scan ends, so a
+		// consumer can hold rows of a block that is still being scanned when it closes
+		spec.Part = gen.PartFunc{Name: "none"}
+		spec.Partition = "none"
+		spec.RGRows, spec.BufRows = 1<<30, core.Pick(r, []int{150, 300, 600})
+	}
 	if _, err := w.AddEngine(spec); err != nil {
 		return nil, err
 	}
 	sw := &scriptWorld{w: w, log: log, plan: plan, engs: map[string]*bs.BloomSearchEngine{}, conc: spec.QueryConc}
 	sw.d = &world.Descriptor{Case: caseID, Kind: world.StoreMem, Engines: w.Specs}
 	total := r.Range(60, 700)
+	if bigBlocks {
+		total = r.Range(600, 1300)
+	}
 	rr := r.Split("rows")
 	for total > 0 {
-		n := r.Range(5, 60)
-		if n > total {
-			n = total
+		// one flush per round; with big blocks a round carries several batches so that the block
+		// written by the flush holds hundreds of rows
+		var batches [][]*world.RowRec
+		round := r.Range(5, 60)
+		if bigBlocks {
+			round = spec.BufRows - 1
 		}
-		var recs []*world.RowRec
-		for k := 0; k < n; k++ {
-			recs = append(recs, w.NewRow(rr, 0))
+		for round > 0 && total > 0 {
+			n := r.Range(5, 60)
+			if n > round {
+				n = round
+			}
+			if n > total {
+				n = total
+			}
+			var recs []*world.RowRec
+			for k := 0; k < n; k++ {
+				recs = append(recs, w.NewRow(rr, 0))
+			}
+			batches = append(batches, recs)
+			round -= n
+			total -= n
 		}
-		if err := w.IngestSync(0, [][]*world.RowRec{recs}); err != nil {
+		if err := w.IngestSync(0, batches); err != nil {
 			w.Close()
 			return nil, err
 		}
-		total -= n
 	}
 	inv, err := w.Inventory()
 	if err != nil {
@@ -335,10 +360,15 @@ func runScripts(rc *RunCtx, i int, forProp string) {
 		n = 16
 	}
 	if forProp == "C23" {
-		n = 5
+		n = 8
 	}
 	for k := 0; k < n; k++ {
-		sc := &scriptCase{Steps: genScript(r), Delays: r.Chance(0.6), Variant: core.Pick(r, []string{"started", "started", "never-started", "stopped"}), Conc: sw.conc}
+		steps := genScript(r)
+		if forProp == "C23" && k%2 == 0 {
+			// stats of terminated queries: take some rows, then stop while blocks are mid-scan
+			steps = []scriptStep{{Op: "next", N: r.Range(1, 40)}, {Op: core.Pick(r, []string{"close", "cancel"})}, {Op: "drain"}}
+		}
+		sc := &scriptCase{Steps: steps, Delays: r.Chance(0.6), Variant: core.Pick(r, []string{"started", "started", "never-started", "stopped"}), Conc: sw.conc}
 		if r.Chance(0.4) {
 			nf := r.Range(1, 3)
 			for f := 0; f < nf; f++ {
